@@ -7,7 +7,7 @@
    policy; errors close the connection; stop() frees the port and refuses connects. *)
 From Coq Require Import List ZArith Lia Bool.
 From RecordUpdate Require Import RecordSet.
-From Sim Require Import Map Variant Current Kernel Queue Net Pcap HttpParse SimState Sim Apps RegistryProofs HttpServerProofs.
+From Sim Require Import Map Variant Current Kernel Queue Net Pcap HttpParse SimState Sim Apps RegistryProofs HttpServerProofs RxProofs TxProofs ComposeProofs.
 Import ListNotations.
 Import RecordSetNotations.
 Local Open Scope Z_scope.
@@ -158,3 +158,38 @@ Proof. vm_compute. reflexivity. Qed.
 Example C16_example_keep_alive_off :
   exists r1, http_serve ex_handlers ex_stall false ex_stream [] = (CClosed, [r1]).
 Proof. eexists. vm_compute. reflexivity. Qed.
+
+(* ---- composition with the concrete receiver and sender (Proofs/ComposeProofs.v):
+   whatever the network does to the client's segments (any arrival order, any
+   duplication) and whatever the sizes of the server's reads ---- *)
+Theorem C16_server_answers_a_prefix_of_the_client_stream :
+  forall sent evs, wf_sent sent -> Forall (ok_ev sent) evs -> forall handlers stall keep,
+  fold_left (http_feed handlers stall keep) (rx_reads evs rx_init) (http_serve handlers stall keep [] [])
+    = http_serve handlers stall keep (snd (fold_left rx_step evs rx_init)) []
+  /\ exists rest, cstream sent = snd (fold_left rx_step evs rx_init) ++ rest.
+Proof. exact http_server_answers_a_prefix_of_the_client_stream. Qed.
+Print Assumptions C16_server_answers_a_prefix_of_the_client_stream.
+
+Theorem C16_server_has_seen_the_whole_stream_at_eof :
+  forall sent evs, wf_sent sent -> Forall (ok_ev sent) evs -> forall handlers stall keep p q,
+  rx_inq (fst (fold_left rx_step evs rx_init)) = p :: q -> p_type p = PError ->
+  fold_left (http_feed handlers stall keep) (rx_reads evs rx_init) (http_serve handlers stall keep [] [])
+    = http_serve handlers stall keep (cstream sent) [].
+Proof. exact http_server_has_seen_everything_at_eof. Qed.
+Print Assumptions C16_server_has_seen_the_whole_stream_at_eof.
+
+Theorem C16_one_client_write_end_to_end :
+  forall cx s,
+  (forall p w, t_mss (get_tcp (fst (tcp_send_packet cx s p w)) s) = t_mss (get_tcp w s)) ->
+  (forall p w, t_next_out (get_tcp (fst (tcp_send_packet cx s p w)) s) = t_next_out (get_tcp w s)) ->
+  forall hops mss fuel bufs w evs handlers stall keep,
+  0 < mss -> t_mss (get_tcp w s) = mss ->
+  let '(r, _, _, ps) := write_loop_g cx fuel s hops bufs 0 w in
+  Forall (ok_ev (map core ps)) evs ->
+  exists n rest,
+    r = Z.of_nat n /\
+    firstn n (concat bufs) = snd (fold_left rx_step evs rx_init) ++ rest /\
+    fold_left (http_feed handlers stall keep) (rx_reads evs rx_init) (http_serve handlers stall keep [] [])
+      = http_serve handlers stall keep (snd (fold_left rx_step evs rx_init)) [].
+Proof. exact one_write_end_to_end. Qed.
+Print Assumptions C16_one_client_write_end_to_end.
